@@ -820,6 +820,10 @@ def run(run, tier, seed, replay=None):
             # quick tier: every sequence of length <= 2 and every third sequence of length 3 (rotating with the seed); the
             # thorough tier and the world-exhaustive boxes enumerate the full box
             jobs = [j for k, j in enumerate(jobs) if len(j["ops"]) <= 2 or k % 3 == seed % 3]
+        elif not quick and ctr == "module":
+            # thorough tier: the full box up to length 3 and every sixth sequence of length 4 (rotating with the seed),
+            # which keeps the tier inside its time budget (the full length-4 box has ~3.5e5 histories)
+            jobs = [j for k, j in enumerate(jobs) if len(j["ops"]) <= 3 or k % 6 == seed % 6]
         jj, oo, res, nf = evaluate("exh" + ctr[0], jobs, chunk=500)
         run.stream(f"exhaustive-small-{ctr}", len(jobs), len({json.dumps(j["ops"]) for j in jobs if nontrivial(j)}),
                    exhaustive=(len(jobs) == nall), box_size=nall, ops_per_step=nops, max_length=maxlen, elaboration_failed=nf,
@@ -831,7 +835,7 @@ def run(run, tier, seed, replay=None):
     run.sample(dict(stream="exhaustive-small", case=jobs[len(jobs) // 2], export=oo[len(jobs) // 2].get("export")))
 
     # ---------------------------------------------------------------- structured random
-    n_rand = 1500 if quick else 40000
+    n_rand = 1500 if quick else 20000
     maxlen = 12 if quick else 25
     for ctr, pub in (("module", pub_m), ("bundle", pub_b)):
         plain = ["a", "b", "c"]
